@@ -31,12 +31,83 @@ let err_name = function
 let show_res = function Ok x -> show_fr x | Err e -> "E " ^ err_name e
 let show_int z = "I " ^ string_of_z z
 let show_bool b = "I " ^ (if b then "1" else "0")
+(* sequence mode (see harness/h_rat.cc): a register file of model values, one dump per step *)
+exception Seq_err of string
+let field x = match x with
+  | Word (n, d) -> "W:" ^ string_of_z n ^ "/" ^ string_of_z d ^ ":" ^ string_of_z (fr_hash x)
+  | Big q -> "B:" ^ string_of_z q.qnum ^ "/" ^ string_of_pos q.qden ^ ":" ^ string_of_z (fr_hash x)
+let valstr x = match x with
+  | Word (n, d) -> string_of_z n ^ "/" ^ string_of_z d
+  | Big q -> string_of_z q.qnum ^ "/" ^ string_of_pos q.qden
+let run_seq toks =
+  let get = function Ok x -> x | Err e -> raise (Seq_err (err_name e)) in
+  let huge = of_string (z_of_string "1208925819614629174706176") XH in
+  let kk = of_string (z_of_string "1099511627791") XH in
+  let h3 = get (fr_add huge (get (of_word_uword (Zpos XH) (Zpos (XI XH))))) in
+  match toks with
+  | nstr :: rest ->
+    let n = int_of_string nstr in
+    let r = Array.make n (of_word Z0) in
+    let rec inits i l = if i = n then l else match l with
+      | t :: l' -> let (a, b) = parse_q (String.sub t 2 (String.length t - 2)) in r.(i) <- of_string a b; inits (i + 1) l'
+      | [] -> failwith "seq inits" in
+    let steps = match inits 0 rest with "|" :: st -> st | _ -> failwith "seq bar" in
+    let buf = Buffer.create 256 in
+    Buffer.add_string buf "Q";
+    let stepno = ref 0 in
+    (try
+      List.iter (fun tok ->
+        let p = Array.of_list (String.split_on_char '.' tok) in
+        let arg k = if Array.length p > k then int_of_string p.(k) else 0 in
+        let x = arg 1 and y = arg 2 and z = arg 3 in
+        let extra = ref "" in
+        let ib b = "I:" ^ (if b then "1" else "0") in
+        let icmp a b = match fr_compare a b with Ok v -> "I:" ^ string_of_z v | Err e -> raise (Seq_err (err_name e)) in
+        (match p.(0) with
+         | "addA" | "addC" -> r.(x) <- get (fr_addA r.(x) r.(y))
+         | "subA" | "subC" -> r.(x) <- get (fr_subA r.(x) r.(y))
+         | "mulA" | "mulC" -> r.(x) <- get (fr_mulA r.(x) r.(y))
+         | "divA" | "divC" -> r.(x) <- get (fr_divA r.(x) r.(y))
+         | "add" | "add3" -> r.(x) <- get (fr_add r.(y) r.(z))
+         | "sub" | "sub3" -> r.(x) <- get (fr_sub r.(y) r.(z))
+         | "mul" | "mul3" -> r.(x) <- get (fr_mul r.(y) r.(z))
+         | "div" | "div3" -> r.(x) <- get (fr_div r.(y) r.(z))
+         | "neg" -> r.(x) <- get (fr_neg r.(y))
+         | "negate" -> r.(x) <- get (fr_negate r.(x))
+         | "inv" -> r.(x) <- get (fr_inv r.(y))
+         | "floor" -> r.(x) <- get (fr_floor r.(y))
+         | "ceil" -> r.(x) <- get (fr_ceil r.(y))
+         | "num" -> r.(x) <- fr_get_num r.(y)
+         | "den" -> r.(x) <- fr_get_den r.(y)
+         | "copy" | "cctor" -> r.(x) <- r.(y)
+         | "move" | "swap" -> let t = r.(x) in r.(x) <- r.(y); r.(y) <- t
+         | "cmp" -> extra := icmp r.(x) r.(y)
+         | "eq" -> extra := ib (fr_eq r.(x) r.(y))
+         | "lt" -> extra := (match fr_compare r.(x) r.(y) with Ok v -> ib (v = Zneg XH) | Err e -> raise (Seq_err (err_name e)))
+         | "sign" -> extra := "I:" ^ string_of_z (fr_sign r.(x))
+         | "isint" -> extra := ib (fr_isInteger r.(x))
+         | "prime" -> extra := "P:" ^ valstr (get (fr_sub (get (fr_add r.(x) huge)) huge))
+         | "primem" -> extra := "P:" ^ valstr (get (fr_div (get (fr_mul r.(x) kk)) kk))
+         | "primec" -> extra := icmp r.(x) huge
+         | "primeq" -> extra := ib (fr_eq r.(x) h3)
+         | _ -> failwith "seq step");
+        if !stepno > 0 then Buffer.add_string buf " ;";
+        if !extra <> "" then Buffer.add_string buf (" " ^ !extra);
+        Array.iter (fun v -> Buffer.add_string buf (" " ^ field v ^ (if wfb v then "" else "!wf"))) r;
+        incr stepno) steps;
+      Buffer.add_string buf " ; F";
+      Array.iter (fun v -> Buffer.add_string buf (" P:" ^ valstr (get (fr_sub (get (fr_add v huge)) huge)))) r;
+      Buffer.contents buf
+    with Seq_err e -> "E " ^ e ^ " step " ^ string_of_int !stepno)
+  | [] -> "BAD"
+
 let () =
   try while true do
     let l = input_line stdin in
     let l = if String.length l > 0 && l.[0] = '!' then String.sub l 1 (String.length l - 1) else l in
     (try
       match String.split_on_char ' ' l with
+      | "seq" :: toks -> print_endline (run_seq toks)
       | [op; _; sa; _; sb] ->
         let out =
           if op = "ctorw" then show_fr (of_word (z_of_string sa))
